@@ -6,7 +6,7 @@ VARIABLE l
 TraceInit == FInit /\ l = 1
 ResetState == /\ enabled' = FALSE /\ threaded' = FALSE /\ started' = FALSE /\ called' = 0 /\ size' = <<>> /\ backlog' = 0
               /\ written' = <<>> /\ mayDrop' = {} /\ mdu' = 0 /\ opt' = {} /\ lostRep' = 0 /\ cur' = 0 /\ fin' = FALSE
-              /\ second' = 0 /\ written2' = <<>>
+              /\ second' = 0 /\ written2' = <<>> /\ closedCb' = FALSE
 TraceNext ==
   /\ l <= Len(Tr) /\ l' = l + 1
   /\ LET ev == Tr[l] IN
@@ -15,6 +15,7 @@ TraceNext ==
        [] ev.e = "Ret"   -> Ret(ev.a[1], ev.r[1])
        [] ev.e = "Write" -> Write(ev.a[1])
        [] ev.e = "Write2" -> Write2(ev.a[1])
+       [] ev.e = "CloseCb" -> CloseCb
        [] ev.e = "Lost"  -> Lost(ev.a[1])
        [] OTHER -> FALSE
 TraceSpec == TraceInit /\ [][TraceNext]_<<fvars, l>>
